@@ -38,6 +38,8 @@ class PollFuture(_Future):
         )
 
         if delegate.cancelled():
+            # Cancelled by someone else (if it was by us, we're cancelled already)
+            self._me_cancel_with_delegate()
             return
         if delegate.exception():
             copy_future_exception(delegate, self)
